@@ -22,8 +22,8 @@
    notifier's instruction: the interpreter [go] is a recursive function over "tasks" (one task
    per C++ function) with explicit fuel, a thread's remaining program is data ([cont]).
    m_CurrentThread is a weak reference: it is null as soon as the current thread is deleted;
-   ExecuteRunning is only run by the outermost execution (m_ExecutionDepth == 0).  println of
-   a waitthread result shows an unresolved return-value pointer when the callee was killed.
+   ExecuteRunning is only run by the outermost execution (m_ExecutionDepth == 0).  The result
+   of a waitthread is a pointer cell resolved by the callee's End or by its VM's destructor.
 
    Also as written: `waitthread label` of a thread is served by Listener::WaitCreateReturnThread,
    i.e. the callee runs in a NEW ScriptClass (`thread label` stays in the caller's class); the
@@ -152,9 +152,10 @@ Fixpoint psize (p : list instr) : nat :=
   match p with [] => O | i :: p' => (isize i + psize p')%nat end.
 
 (* ---------------------------------------------------------------- the shared engine state *)
-(* a script value as far as println can tell: NIL, an integer, or an unresolved return-value
-   pointer (what `local.r = waitthread ..` holds until the callee ends) *)
-Inductive rval := RNil | RInt (v : N) | RPtr.
+(* a script value as far as println can tell: NIL, an integer, or the unresolved return-value
+   pointer of thread t (what `local.r = waitthread ..` holds until the callee's VM resolves it:
+   End stores the value, the VM destructor stores NIL) *)
+Inductive rval := RNil | RInt (v : N) | RPtr (t : N).
 
 Inductive tstate := TRunning | TWaiting | TTiming.        (* ScriptThread::m_ThreadState *)
 Inductive vstate := VRunning | VSuspended | VIdling.      (* ScriptVM::state of a live thread *)
@@ -214,6 +215,17 @@ Definition w_vst (x : thread) (v : vstate) := mkTh (alive x) (tst x) v (cont x) 
 Definition w_cont (x : thread) (v : list instr) := mkTh (alive x) (tst x) (vst x) v (grp x) (rreg x) (retto x).
 Definition w_rreg (x : thread) (v : rval) := mkTh (alive x) (tst x) (vst x) (cont x) (grp x) v (retto x).
 
+(* the return-value pointer of thread w is resolved to v: every holder (the waitthread caller's
+   variable, if it still holds this pointer) takes the value *)
+Definition resolve (s : sh) (w : N) (v : rval) : sh :=
+  match retto (th s w) with
+  | Some c => match rreg (th s c) with
+              | RPtr t => if t =? w then upd s c (w_rreg (th s c) v) else s
+              | _ => s
+              end
+  | None => s
+  end.
+
 Definition is_waiting (x : tstate) : bool := match x with TWaiting => true | _ => false end.
 Definition opt_eqb (a : option N) (t : N) : bool := match a with Some c => c =? t | None => false end.
 
@@ -262,13 +274,12 @@ Record prims (T : Type) := mkPrims {
   p_settime : N -> T -> T;                          (* SetTime *)
   p_regsize : lid -> name -> T -> nat;              (* RegisterSize(name) *)
   p_timing : T -> bool;                             (* timer HasAnyElement *)
-  p_res : rval -> rval;                             (* what println shows for a result variable *)
   p_flag : T -> bool }.                             (* specification only: a cancelled registration was matched *)
 
 Arguments p_reg {T}. Arguments p_waiting {T}. Arguments p_detach {T}. Arguments p_detach_all {T}.
 Arguments p_cancel0 {T}. Arguments p_cancel_rest {T}. Arguments p_tadd {T}. Arguments p_tremove {T}.
 Arguments p_tpop_first {T}. Arguments p_tpop {T}. Arguments p_settime {T}. Arguments p_regsize {T}.
-Arguments p_timing {T}. Arguments p_res {T}. Arguments p_flag {T}.
+Arguments p_timing {T}. Arguments p_flag {T}.
 
 (* ---------------------------------------------------------------- the interpreter *)
 Inductive task :=
@@ -324,8 +335,12 @@ Section Interp.
                            | TWaiting => go f (KCancelAll t) x s1
                            | TRunning => Some (x, s1)
                            end;
-            (* vm->NotifyDelete(), then the Listener destructor; the weak references die *)
-            do (x3, s3) <- go f (KDtor (LThr t)) x2 (remove_from_class s2 (grp t0));
+            (* vm->NotifyDelete(): an Idling VM is deleted at once (its destructor resolves a
+               pending result to NIL), a VM that is still executing is deleted by its own
+               Execute; then the Listener destructor; the weak references die *)
+            let s2' := remove_from_class s2 (grp t0) in
+            let s2'' := match vst t0 with VIdling => resolve s2' t RNil | _ => s2' end in
+            do (x3, s3) <- go f (KDtor (LThr t)) x2 s2'';
             Some (x3, if opt_eqb (cur s3) t then set_cur s3 None else s3)
           else Some (x, s)
       | KCancelAll w =>
@@ -424,7 +439,7 @@ Section Interp.
                                      | VSuspended => upd s2 w (w_vst t2 VIdling)
                                      | _ => s2
                                      end
-                    else s2)
+                    else resolve s2 w RNil)        (* state Destroyed: delete this *)
       | KRunLoop w =>
           let t0 := th s w in
           if alive t0 then
@@ -441,11 +456,7 @@ Section Interp.
           else Some (x, s)
       | KEnd w v =>
           (* the return value resolves the caller's pointer, then the thread is deleted *)
-          let s1 := match retto (th s w) with
-                    | Some c => upd s c (w_rreg (th s c) (match v with Some z => RInt z | None => RNil end))
-                    | None => s
-                    end in
-          go f (KKill w) x s1
+          go f (KKill w) x (resolve s w (match v with Some z => RInt z | None => RNil end))
       | KRegister src n w =>
           let was := p_waiting P w x in
           let x1 := p_reg P src n w x in
@@ -503,7 +514,7 @@ Section Interp.
               go f (KExecute t) x (new_thread s (grp (th s w)) p None)
           | IWaitThread p =>
               let t := ntid s in
-              let s1 := new_class (new_thread (upd s w (w_rreg (th s w) RPtr)) (ngrp s) p (Some w)) in
+              let s1 := new_class (new_thread (upd s w (w_rreg (th s w) (RPtr (ntid s)))) (ngrp s) p (Some w)) in
               do (x2, s2) <- go f (KRegister (LThr t) NE w) x s1;
               go f (KExecute t) x2 s2
           | IEnd v => go f (KEnd w v) x s
@@ -536,8 +547,7 @@ Section Interp.
     match obj_of s o with Some ob => p_regsize P (LO ob) (NS n) x | None => O end.
 
   Definition observe (x : T) (s : sh) : obs :=
-    mkObs (map (fun e => match snd e with PR v => (fst e, PR (p_res P v)) | _ => e end) (rev (log s)))
-          (Nat.eqb (nscr s) 0) (nscr s) (nthr s) (p_timing P x)
+    mkObs (rev (log s)) (Nat.eqb (nscr s) 0) (nscr s) (nthr s) (p_timing P x)
           (flat_map (fun o => map (size_of x s o) [NA; NB; NC]) [0; 1; 2]) (p_flag P x).
 
   (* live threads, each with what it still has to run *)
@@ -675,6 +685,6 @@ Definition m_timing (x : mt) : bool := negb (is_nil (elems x)).
 
 Definition model_prims : prims mt :=
   mkPrims mt m_reg m_waiting m_detach m_detach_all m_cancel0 m_cancel_rest m_tadd m_tremove
-          m_tpop_first m_tpop m_settime m_regsize m_timing (fun v => v) (fun _ => false).
+          m_tpop_first m_tpop m_settime m_regsize m_timing (fun _ => false).
 
 Definition run (ops : list op) : list (option obs) := run_from model_prims mt_init sh_init ops.
